@@ -54,10 +54,10 @@ Definition config_of_tree (t : tree) : config :=
      c_max_root_updates := t_N (t_nth t 4); c_enforce := t_bool (t_nth t 5);
      c_fuel := N.to_nat (t_N (t_nth t 6)) |}.
 
-(* [f1, f2, f3, f4, f5, f9] *)
+(* [f1, f2, f3, f4, f5, f9, f17] *)
 Definition fixes_of_tree (t : tree) : fixes :=
   Build_fixes (t_bool (t_nth t 0)) (t_bool (t_nth t 1)) (t_bool (t_nth t 2)) (t_bool (t_nth t 3))
-              (t_bool (t_nth t 4)) (t_bool (t_nth t 5)).
+              (t_bool (t_nth t 4)) (t_bool (t_nth t 5)) (t_bool (t_nth t 6)).
 
 Definition stored_summary {A} (ver : A -> N) (o : option (stored A)) : tree :=
   match o with
